@@ -7,6 +7,7 @@ import (
 	"errors"
 	"io"
 	"strings"
+	"sync"
 
 	"grog/internal/caching/backends"
 	"grog/internal/config"
@@ -112,4 +113,67 @@ func VerifC08_R_no_dangling_remote_reference() {
 		sym.Assert(sym.StrEq(got, content), "C08.R1.remote-blob-has-the-content")
 	}
 	sym.Reach("C08.R.dangling")
+}
+
+// R1 under concurrency: two targets of one build write the same digest at the same time while the
+// remote store rejects the first upload it sees. Whoever is told that the write succeeded may record
+// a result that references the blob, so the blob must then be in the remote store.
+type flakyRemote struct {
+	memRemote
+	mu       sync.Mutex
+	failures int // the next n Set calls fail
+}
+
+func (f *flakyRemote) Set(ctx context.Context, path, key string, content io.Reader) error {
+	b, err := io.ReadAll(content)
+	if err != nil {
+		return err
+	}
+	f.mu.Lock()
+	defer f.mu.Unlock()
+	if f.failures > 0 {
+		f.failures--
+		return errors.New("remote unavailable")
+	}
+	f.data[path+"/"+key] = string(b)
+	return nil
+}
+
+func (f *flakyRemote) Exists(ctx context.Context, path, key string) (bool, error) {
+	f.mu.Lock()
+	defer f.mu.Unlock()
+	_, ok := f.data[path+"/"+key]
+	return ok, nil
+}
+
+func VerifC08_R_concurrent_writers_of_one_digest() {
+	ctx := context.Background()
+	config.Global.Root = "/grogroot"
+	config.Global.WorkspaceRoot = "/w"
+	fs, err := backends.NewFileSystemCache(ctx)
+	if err != nil {
+		panic(err)
+	}
+	remote := &flakyRemote{memRemote: memRemote{data: map[string]string{}}, failures: sym.Choice("failing_uploads", 3)}
+	cas := NewCas(backends.NewRemoteWrapper(fs, remote))
+	errs := make([]error, 2)
+	returned := make([]bool, 2)
+	done := make(chan int, 2)
+	for i := 0; i < 2; i++ {
+		i := i
+		go func() {
+			errs[i] = cas.Write(ctx, "d1", strings.NewReader("blob"))
+			returned[i] = true
+			done <- i
+		}()
+	}
+	<-done
+	<-done
+	_, inRemote := remote.data["cas/d1"]
+	for i := 0; i < 2; i++ {
+		if errs[i] == nil {
+			sym.Assert(inRemote, "C08.R1.successful-write-means-the-blob-is-in-the-remote-store")
+		}
+	}
+	sym.Reach("C08.R.concurrent-writers")
 }
